@@ -28,7 +28,8 @@ var DefaultNames = []string{"a", "b", "c", "a", "b", "d", "child", "self", "text
 var DefaultValues = []string{"", "1", "2", "3", "10", "9", " 12 ", "1e3", "+1", "-0", "-5", "NaN", "Infinity", "0x10", ".5", "5.", "abc", "b", "é€", "x y", "2.5", "007", "-2.50", "\t4\n"}
 var NumericValues = []string{"1", "2", "3", "10", "9", "2.5", "-1", "0", "100", "0.5", " 7 ", "abc", ""}
 
-var uris = []string{"urn:x", "urn:y"}
+// "urn:xa-" + "b" spells the same as "urn:x" + "a-b": expanded names are pairs, not concatenations
+var uris = []string{"urn:x", "urn:y", "urn:x", "urn:y", "urn:xa-"}
 var prefixes = []string{"p", "q", ""}
 
 type binding struct{ prefix, uri string }
